@@ -4,8 +4,11 @@
 
 #include <libxml/parser.h>
 
+#include <chrono>
 #include <csignal>
+#include <dirent.h>
 #include <cstdlib>
+#include <cstring>
 #include <fstream>
 #include <sstream>
 #include <sys/stat.h>
@@ -30,12 +33,28 @@ const int kDump = DUMP_ORDERED | DUMP_RAW_MATH;
 
 void removeTree(const std::string &dir)
 {
+    // the tree is ours and shallow: <dir>/{*.cellml, sub/*.cellml, caseN/...}
     if (dir.find("/c06-") == std::string::npos) {
         return;
     }
-    std::string cmd = "rm -rf '" + dir + "'";
-    int r = system(cmd.c_str());
-    (void)r;
+    DIR *d = opendir(dir.c_str());
+    if (d != nullptr) {
+        while (dirent *e = readdir(d)) {
+            std::string n = e->d_name;
+            if (n == "." || n == "..") {
+                continue;
+            }
+            std::string p = dir + (dir.back() == '/' ? "" : "/") + n;
+            struct stat st;
+            if (lstat(p.c_str(), &st) == 0 && S_ISDIR(st.st_mode)) {
+                removeTree(p);
+            } else {
+                unlink(p.c_str());
+            }
+        }
+        closedir(d);
+    }
+    rmdir(dir.c_str());
 }
 
 void atExitCleanup()
@@ -65,6 +84,7 @@ struct Setup
     const C06Forest *f = nullptr;
     unsigned mode = 0; // 0: library filled through addModel, 1: files + main built through the API, 2: files + main parsed
     bool rawKeys = false;
+    bool workaround = false;
     std::string dir; // with trailing slash
     // results
     ImporterPtr importer;
@@ -117,6 +137,24 @@ bool build(Setup &s)
         s.problem = "C15.logger|importer-after-resolveImports|" + lg.substr(0, lg.find('|')) + "\n" + lg;
         return false;
     }
+    if (ok && s.importer->errorCount() == 0 && s.main->hasUnresolvedImports()) {
+        // resolveImports() does not fetch imported units that only the encapsulated children of an imported component use
+        // (it looks at the units of the imported component itself): it returns true and leaves the model unresolved, and
+        // flattenModel() then refuses it. That is a resolution defect (C07's subject); the way round is to resolve the
+        // library models as well.
+        s.workaround = true;
+        for (int round = 0; round < 4 && s.main->hasUnresolvedImports(); ++round) {
+            for (size_t i = 0; i < s.importer->libraryCount(); ++i) {
+                auto lib = s.importer->library(i);
+                if (lib->hasUnresolvedImports()) {
+                    std::string key = s.importer->key(i);
+                    size_t slash = key.find_last_of('/');
+                    std::string base = s.rawKeys || slash == std::string::npos ? s.dir : key.substr(0, slash + 1);
+                    ok = s.importer->resolveImports(lib, base) && ok;
+                }
+            }
+        }
+    }
     if (!ok || s.importer->errorCount() != 0 || s.main->hasUnresolvedImports()) {
         s.problem = "C06.setup|resolveImports\nresolveImports returned " + std::string(ok ? "true" : "false") + " on a resolvable forest (hasUnresolvedImports=" + (s.main->hasUnresolvedImports() ? "true" : "false") + "):\n" + dumpIssues(s.importer);
         return false;
@@ -130,31 +168,17 @@ bool build(Setup &s)
 
 void preflight(void *arg)
 {
-    // Everything the parent is going to ask of the library, in a child: a crash, an uncaught exception or a hang in here
-    // becomes a recorded failure instead of the death of the worker.
+    // resolveImports and flattenModel in a child first: a crash, an uncaught exception or a hang in there becomes a recorded
+    // failure of this case instead of the death of the worker. (The validator, analyser and generator calls that follow in
+    // the parent are not repeated here: they cost 100 ms each; if one of them dies on a flat model bin/check triages the case.)
     Setup s = *static_cast<Setup *>(arg);
     if (!build(s)) {
         return;
     }
-    auto validator = Validator::create();
-    validator->validateModel(s.main);
-    for (const auto &l : s.libs) {
-        validator->validateModel(l);
-    }
     auto flat = s.importer->flattenModel(s.main);
-    if (flat == nullptr) {
-        return;
+    if (flat != nullptr) {
+        (void)flat->hasImports();
     }
-    validator->validateModel(flat);
-    auto analyser = Analyser::create();
-    analyser->analyseModel(flat);
-    if (analyser->model() != nullptr && analyser->model()->isValid()) {
-        auto gen = Generator::create();
-        gen->setModel(analyser->model());
-        (void)gen->implementationCode();
-    }
-    auto printer = Printer::create();
-    (void)printer->printModel(flat);
 }
 
 std::string firstLine(const std::string &s)
@@ -188,6 +212,9 @@ std::string validityToken(const IssuePtr &is)
     if ((item == "units" || item == "unit") && has("reference")) {
         return "units-child-reference";
     }
+    if (has("contains multiple units with the name")) {
+        return "units-name-not-unique";
+    }
     if (has("same name") || has("duplicate")) {
         return item + "-name-not-unique";
     }
@@ -195,6 +222,27 @@ std::string validityToken(const IssuePtr &is)
         return "variable-interface-or-equivalence";
     }
     return item + "|rule" + std::to_string(static_cast<int>(is->referenceRule()));
+}
+
+// The compiler or the compiled program dying without any output is the machine (16 cores shared by many jobs: time limits
+// and process limits are hit), not the code under test: retried, then counted; rr.error is left empty in that case.
+bool runCRobustly(const std::string &iface, const std::string &impl, const RunPlan &plan, RunResult &rr)
+{
+    for (int attempt = 0; attempt < 3; ++attempt) {
+        rr = RunResult();
+        if (gRunner->runC(iface, impl, plan, rr)) {
+            return true;
+        }
+        std::string e = rr.error;
+        size_t colon = e.find(": ");
+        bool silent = colon != std::string::npos && e.find_first_not_of(" \n\t", colon + 2) == std::string::npos;
+        bool infra = e.compare(0, 19, "compile/link failed") == 0 || e.find("status 1014") != std::string::npos || e.find("status 1009") != std::string::npos;
+        if (!silent || !infra) {
+            return false;
+        }
+    }
+    rr.error.clear();
+    return false;
 }
 
 std::map<int, std::string> rolesByClass(const AnalyserModelPtr &am, const GtMapping &map, std::string &problem)
@@ -219,8 +267,30 @@ std::map<int, std::string> rolesByClass(const AnalyserModelPtr &am, const GtMapp
     return r;
 }
 
+struct DevTimer
+{
+    Case &c;
+    bool on;
+    std::chrono::steady_clock::time_point t;
+    explicit DevTimer(Case &cc)
+        : c(cc)
+        , on(getenv("C06_DEV_LOG") != nullptr)
+        , t(std::chrono::steady_clock::now())
+    {
+    }
+    void lap(const char *name)
+    {
+        if (on) {
+            auto n = std::chrono::steady_clock::now();
+            c.count(std::string("dev-us:") + name, static_cast<long>(std::chrono::duration_cast<std::chrono::microseconds>(n - t).count()));
+            t = n;
+        }
+    }
+};
+
 void run(Src &src, Case &c)
 {
+    DevTimer tm(c);
     xmlKeepBlanksDefault(1);
     if (gRunner == nullptr) {
         gRunner = new CodeRunner();
@@ -265,6 +335,7 @@ void run(Src &src, Case &c)
     c.nontrivial = f.nontrivial;
     c.count("import-edges", f.importEdges);
 
+    tm.lap("generate");
     // ---- files
     char sub[64];
     static long serial = 0;
@@ -279,67 +350,105 @@ void run(Src &src, Case &c)
     if (s.mode != 0) {
         writeFiles(s);
     }
+    if (const char *keep = getenv("C06_DEV_KEEP")) {
+        // development aid: a copy of the forest as files
+        Setup k = s;
+        k.dir = std::string(keep) + "/";
+        mkdir(k.dir.c_str(), 0777);
+        writeFiles(k);
+    }
 
+    tm.lap("files");
+    // failures on the input shapes of known findings carry the shape in their signature
+    const std::string shape = std::string(f.importerChildren ? "|importer-children-below-import-element" : "") + (f.importerChildrenUseImportedUnits ? "|importer-children-use-imported-units" : "")
+                              + (f.chainGap ? "|chain-element-without-placeholder" : "") + (f.libraryAliasNamedLikeOtherUnits ? "|units-renamed-in-sequence" : "")
+                              + (f.unitsDependencyIsImport ? "|library-units-dependency-is-an-import" : "") + (f.libraryImportElementWithPlaceholders ? "|library-import-element-with-placeholder-variables" : "")
+                              + (f.unitsDependencyKnownElsewhere ? "|units-dependency-defined-elsewhere-under-another-name" : "");
     // ---- the same calls in a child first
     {
         std::string diag;
         Setup copy = s;
-        int rc = runIsolated(preflight, &copy, 10, &diag);
+        int rc = runIsolated(preflight, &copy, 45, &diag);
         if (rc != 0) {
             std::string token = rc == 1000 + SIGALRM ? "hang|Importer::flattenModel-pipeline" : c06CrashToken(diag);
+            token += shape;
             c.fail("C06.crash|" + token, "the resolve / validate / flatten / analyse / generate sequence killed the process (status " + std::to_string(rc) + "):\n" + diag.substr(diag.size() > 6000 ? diag.size() - 6000 : 0));
             return;
         }
     }
 
+    tm.lap("preflight");
     if (!build(s)) {
         c.fail(firstLine(s.problem), rest(s.problem));
         return;
     }
-    auto also = [&](const std::string &sig, const std::string &msg) { c.alsoFailed.emplace_back(sig, msg); };
+    auto also = [&](const std::string &sig, const std::string &msg) { c.alsoFailed.emplace_back(sig.compare(0, 4, "C06.") == 0 && sig.compare(0, 10, "C06.setup|") != 0 ? sig + shape : sig, msg); };
+    if (s.workaround) {
+        c.cls("resolveImports-left-units-of-encapsulated-children-unresolved(libraries-resolved-explicitly)");
+    }
 
+    tm.lap("build");
     // ---- are the inputs valid?
+    // The forest is valid by construction. The validator disagrees in two situations, which make (ii) vacuous for the case
+    // (counted as classes) but are no reason to stop: two imports of one units_ref from one href (its own rule; possible in
+    // the addModel mode only), and a connection between a variable in imported units and one in local units (its units
+    // reduction does not follow imports and reports a mismatch). Anything else is reported.
     auto validator = Validator::create();
     bool inputsValid = true;
     std::string inputIssues;
-    validator->validateModel(s.main);
-    if (validator->errorCount() != 0) {
-        inputsValid = false;
-        inputIssues += "main:\n" + dumpIssues(validator);
-    }
-    {
+    bool unexpectedInputIssue = false;
+    auto validateInput = [&](const ModelPtr &model, const std::string &name) {
+        validator->validateModel(model);
         std::string lg = checkLogger(validator);
         if (!lg.empty()) {
-            also("C15.logger|validator-on-importing-model|" + lg.substr(0, lg.find('|')), lg);
+            also("C15.logger|validator-on-forest-model|" + lg.substr(0, lg.find('|')), lg);
         }
-    }
-    for (size_t i = 0; i < s.libs.size(); ++i) {
-        validator->validateModel(s.libs[i]);
-        if (validator->errorCount() != 0) {
-            inputsValid = false;
-            inputIssues += s.libNames[i] + ":\n" + dumpIssues(validator);
+        if (validator->errorCount() == 0) {
+            return;
         }
-    }
-    if (!inputsValid) {
-        // The forest is valid by construction, with one exception the validator makes: two imports of one units_ref from one
-        // href (possible in the addModel mode only). Anything else must be visible.
-        bool onlyDuplicateUnitsImport = true;
-        std::istringstream is(inputIssues);
-        std::string line;
-        while (std::getline(is, line)) {
-            if (line.compare(0, 5, "issue") == 0 && line.find("level=0") != std::string::npos && line.find("contains multiple imported units from") == std::string::npos) {
-                onlyDuplicateUnitsImport = false;
+        inputsValid = false;
+        inputIssues += name + ":\n" + dumpIssues(validator);
+        bool hasImportedUnits = false;
+        for (size_t i = 0; i < model->unitsCount(); ++i) {
+            hasImportedUnits = hasImportedUnits || model->units(i)->isImport();
+        }
+        for (size_t i = 0; i < validator->errorCount(); ++i) {
+            std::string d = validator->error(i)->description();
+            if (d.find("contains multiple imported units from") != std::string::npos) {
+                c.cls("inputs-invalid:one-units_ref-imported-twice-from-one-href");
+            } else if (hasImportedUnits && d.find("Cyclic units exist") != std::string::npos && d.find(" importing ") != std::string::npos) {
+                // an imported units named like a units its definition refers to in the library: no cycle, but reported as one
+                c.cls("inputs-invalid:validator-reports-a-units-cycle-across-models");
+            } else if (hasImportedUnits && d.find("non-matching units of") != std::string::npos) {
+                c.cls("inputs-invalid:validator-does-not-follow-imported-units-of-connected-variables");
+            } else {
+                unexpectedInputIssue = true;
             }
         }
-        c.count("inputs-not-valid");
-        if (onlyDuplicateUnitsImport) {
-            c.cls("inputs-invalid:one-units_ref-imported-twice-from-one-href");
-        } else {
-            c.cls("inputs-not-valid");
-            also("C06.setup|inputs-not-valid", "the validator rejects a model of the forest, which is valid by construction:\n" + inputIssues);
+    };
+    // Each validation costs ~0.1 s under the sanitizers (the MathML DTD is parsed per math block), so the inputs are validated
+    // for one case in six (generator health) and whenever the flat model does not validate (the precondition of (ii)).
+    bool inputsChecked = false;
+    auto checkInputs = [&](const Setup &st) {
+        inputsChecked = true;
+        c.count("input-validations");
+        validateInput(st.main, "main");
+        for (size_t i = 0; i < st.libs.size(); ++i) {
+            validateInput(st.libs[i], st.libNames[i]);
         }
+        if (!inputsValid) {
+            c.count("inputs-not-valid");
+            if (unexpectedInputIssue) {
+                c.cls("inputs-not-valid");
+                also("C06.setup|inputs-not-valid", "the validator rejects a model of the forest, which is valid by construction:\n" + inputIssues);
+            }
+        }
+    };
+    if (c.hash % 6 == 0) {
+        checkInputs(s);
     }
 
+    tm.lap("validate-inputs");
     // ---- flatten
     std::string mainBefore = dumpModel(s.main, kDump);
     std::vector<std::string> libsBefore;
@@ -381,16 +490,29 @@ void run(Src &src, Case &c)
     std::string flatText = Printer::create()->printModel(flat);
     auto withFlat = [&](const std::string &m) { return m + "\n--- flat model ---\n" + flatText.substr(0, 12000); };
 
+    tm.lap("flatten+dumps");
     // ---- (ii) validity
     bool flatValid = true;
     validator->validateModel(flat);
     if (validator->errorCount() != 0) {
         flatValid = false;
+        std::string flatIssues = dumpIssues(validator);
+        std::string token = validityToken(validator->error(0));
+        if (!inputsChecked) {
+            // on a fresh copy of the forest, untouched by the flattenModel call above
+            Setup fresh = s;
+            fresh.libs.clear();
+            fresh.libNames.clear();
+            if (build(fresh)) {
+                checkInputs(fresh);
+            }
+        }
         if (inputsValid) {
-            also("C06.valid|" + validityToken(validator->error(0)), withFlat("every model of the forest validates, the flat model does not:\n" + dumpIssues(validator)));
+            also("C06.valid|" + token, withFlat("every model of the forest validates, the flat model does not:\n" + flatIssues));
         }
     }
 
+    tm.lap("validate-flat");
     // ---- structure
     std::string problem;
     std::vector<C06Match> matches = c06MatchComponents(flat, f, problem);
@@ -412,29 +534,48 @@ void run(Src &src, Case &c)
         }
     }
 
-    // ---- reference analysis (the unsplit model, built directly)
-    auto refAnalyser = Analyser::create();
-    refAnalyser->analyseModel(buildApi(f.ref.spec).model);
-    auto refAm = refAnalyser->model();
-    std::string refType = refAm != nullptr ? AnalyserModel::typeAsString(refAm->type()) : "null";
-    bool refOk = refAm != nullptr && refAm->isValid() && refType == f.ref.expectedType;
+    // ---- reference analysis (the unsplit model, built directly), consulted only when the flat model's analysis differs
+    // from the constructed truth: then it decides whether the analyser disagrees with the construction for the unsplit model
+    // as well (C05's claim; counted, not judged here) or only for the flat model (a flattening failure).
     c.cls("type:" + f.ref.expectedType);
-    if (!refOk) {
-        c.count("reference-not-analysed-as-constructed");
-        c.cls("reference-not-analysed-as-constructed");
-    }
-    GtMapping refMap;
+    bool refDone = false, refOk = false;
+    std::string refType;
     std::map<int, std::string> refRoles;
-    if (refOk) {
-        std::string rp;
-        if (!mapAnalyserModel(refAm, f.ref, refMap)) {
-            refOk = false;
-            c.count("reference-not-mapped");
-        } else {
-            refRoles = rolesByClass(refAm, refMap, rp);
+    auto ensureRef = [&]() {
+        if (refDone) {
+            return;
         }
-    }
+        refDone = true;
+        c.count("reference-analyses");
+        auto refAnalyser = Analyser::create();
+        refAnalyser->analyseModel(buildApi(f.ref.spec).model);
+        auto refAm = refAnalyser->model();
+        refType = refAm != nullptr ? AnalyserModel::typeAsString(refAm->type()) : "null";
+        refOk = refAm != nullptr && refAm->isValid();
+        GtMapping refMap;
+        if (refOk) {
+            std::string rp;
+            if (!mapAnalyserModel(refAm, f.ref, refMap)) {
+                refOk = false;
+            } else {
+                refRoles = rolesByClass(refAm, refMap, rp);
+                refOk = rp.empty();
+            }
+        }
+    };
+    auto looseRole = [&](GtRole r, const std::string &got) {
+        switch (r) {
+        case GtRole::VOI: return got == "variable_of_integration";
+        case GtRole::STATE: return got == "state";
+        case GtRole::CONSTANT: return got == "constant";
+        case GtRole::COMPUTED_CONSTANT: return got == "computed_constant";
+        case GtRole::ALGEBRAIC: return got == "algebraic";
+        case GtRole::NLA: return got == "algebraic" || got == "computed_constant";
+        }
+        return false;
+    };
 
+    tm.lap("match");
     // ---- per candidate correspondence: equivalences, units, analysis, values
     std::vector<std::pair<std::string, std::string>> firstFailures;
     bool someMatchPassed = false;
@@ -444,7 +585,7 @@ void run(Src &src, Case &c)
         std::string d = c06CompareEquivalences(f, m);
         bool structureOk = true;
         if (!d.empty()) {
-            fails.emplace_back("C06.equivalences|" + firstLine(d) + (f.chainGap && firstLine(d) == "missing" ? "|chain-element-without-placeholder" : ""), withFlat(rest(d)));
+            fails.emplace_back("C06.equivalences|" + firstLine(d), withFlat(rest(d)));
             structureOk = false;
         }
         d = c06CompareUnits(flat, f, m);
@@ -452,7 +593,7 @@ void run(Src &src, Case &c)
             fails.emplace_back("C06.units|" + firstLine(d), withFlat(rest(d)));
             structureOk = false;
         }
-        if (structureOk && flatValid && refOk) {
+        while (structureOk && flatValid) { // a block left by break
             GtModel truth = c06RenamedTruth(f, m);
             auto analyser = Analyser::create();
             analyser->analyseModel(flat);
@@ -462,57 +603,87 @@ void run(Src &src, Case &c)
             }
             auto am = analyser->model();
             std::string type = am != nullptr ? AnalyserModel::typeAsString(am->type()) : "null";
-            if (type != refType || am == nullptr || !am->isValid()) {
-                fails.emplace_back("C06.analysis|type:" + refType + "->" + type, withFlat("the unsplit model is analysed as " + refType + ", the flat model as " + type + ":\n" + dumpIssues(analyser)));
-            } else {
-                GtMapping map;
-                if (!mapAnalyserModel(am, truth, map)) {
-                    fails.emplace_back("C06.analysis|unknown-variable", withFlat(map.problem));
-                } else {
-                    std::string rp;
-                    auto roles = rolesByClass(am, map, rp);
-                    if (!rp.empty()) {
-                        fails.emplace_back("C06.analysis|class-reported-twice", withFlat(rp));
-                    } else if (roles != refRoles) {
-                        std::string detail, tok;
-                        for (const auto &r : refRoles) {
-                            std::string got = roles.count(r.first) != 0 ? roles[r.first] : "absent";
-                            if (got != r.second) {
-                                const auto &h = f.ref.classes[static_cast<size_t>(r.first)].inst[0];
-                                detail += "class " + std::to_string(r.first) + " (" + f.ref.spec.comps[static_cast<size_t>(h.comp)].name + "." + f.ref.spec.comps[static_cast<size_t>(h.comp)].vars[static_cast<size_t>(h.var)].name + "): unsplit model " + r.second + ", flat model " + got + "\n";
-                                if (tok.empty()) {
-                                    tok = r.second + "->" + got;
-                                }
-                            }
-                        }
-                        fails.emplace_back("C06.analysis|role:" + tok, withFlat(detail));
+            if (am == nullptr || !am->isValid() || type != f.ref.expectedType) {
+                ensureRef();
+                if (!refOk || refType != f.ref.expectedType) {
+                    if (refType != type) {
+                        fails.emplace_back("C06.analysis|type:" + refType + "->" + type, withFlat("the unsplit model is analysed as " + refType + " (constructed as " + f.ref.expectedType + "), the flat model as " + type + ":\n" + dumpIssues(analyser)));
                     } else {
-                        c.count("analysed");
-                        RunPlan plan = makeRunPlan(truth, map);
-                        auto gen = Generator::create();
-                        gen->setModel(am);
-                        std::string iface = gen->interfaceCode(), impl = gen->implementationCode();
-                        RunResult rr;
-                        if (iface.empty() || impl.empty()) {
-                            fails.emplace_back("C06.code|empty", "generator returned empty code for the flat model");
-                        } else if (!gRunner->runC(iface, impl, plan, rr)) {
-                            fails.emplace_back("C06.code|run|" + rr.error.substr(0, 30), rr.error + "\n--- implementation ---\n" + impl.substr(0, 6000));
-                        } else {
-                            c.count("programs");
-                            long comparisons = 0;
-                            std::string v = compareRunWithTruth(truth, map, rr, kTol, &comparisons);
-                            c.count("comparisons", comparisons);
-                            if (!v.empty()) {
-                                fails.emplace_back("C06.value|" + firstLine(v), withFlat(rest(v)) + "\n--- implementation ---\n" + impl.substr(0, 8000));
-                            } else if (!f.ref.nla.empty() && (rr.nlaCalls <= 0 || rr.nlaResidual > 1e-6)) {
-                                fails.emplace_back("C06.value|nla-residual", withFlat("the NLA objective function of the flat model does not vanish at the reference solution (calls " + std::to_string(rr.nlaCalls) + ", max |f| " + std::to_string(rr.nlaResidual) + ")"));
-                            } else {
-                                c.count("values-confirmed");
+                        c.count("reference-not-analysed-as-constructed");
+                        c.cls("reference-not-analysed-as-constructed");
+                    }
+                } else {
+                    fails.emplace_back("C06.analysis|type:" + refType + "->" + type, withFlat("the unsplit model is analysed as " + refType + ", the flat model as " + type + ":\n" + dumpIssues(analyser)));
+                }
+                break;
+            }
+            GtMapping map;
+            if (!mapAnalyserModel(am, truth, map)) {
+                fails.emplace_back("C06.analysis|unknown-variable", withFlat(map.problem));
+                break;
+            }
+            std::string rp;
+            auto roles = rolesByClass(am, map, rp);
+            if (!rp.empty()) {
+                fails.emplace_back("C06.analysis|class-reported-twice", withFlat(rp));
+                break;
+            }
+            bool loose = roles.size() == f.ref.classes.size();
+            for (const auto &r : roles) {
+                loose = loose && looseRole(f.ref.classes[static_cast<size_t>(r.first)].role, r.second);
+            }
+            if (!loose) {
+                ensureRef();
+                if (!refOk) {
+                    c.count("reference-not-analysed-as-constructed");
+                    c.cls("reference-not-analysed-as-constructed");
+                    break;
+                }
+                if (roles != refRoles) {
+                    std::string detail, tok;
+                    for (const auto &r : refRoles) {
+                        std::string got = roles.count(r.first) != 0 ? roles[r.first] : "absent";
+                        if (got != r.second) {
+                            const auto &h = f.ref.classes[static_cast<size_t>(r.first)].inst[0];
+                            detail += "class " + std::to_string(r.first) + " (" + f.ref.spec.comps[static_cast<size_t>(h.comp)].name + "." + f.ref.spec.comps[static_cast<size_t>(h.comp)].vars[static_cast<size_t>(h.var)].name + "): unsplit model " + r.second + ", flat model " + got + "\n";
+                            if (tok.empty()) {
+                                tok = r.second + "->" + got;
                             }
                         }
                     }
+                    fails.emplace_back("C06.analysis|role:" + tok, withFlat(detail));
+                    break;
+                }
+                c.count("roles-differ-from-construction-as-for-the-unsplit-model");
+            }
+            c.count("analysed");
+            RunPlan plan = makeRunPlan(truth, map);
+            auto gen = Generator::create();
+            gen->setModel(am);
+            std::string iface = gen->interfaceCode(), impl = gen->implementationCode();
+            RunResult rr;
+            if (iface.empty() || impl.empty()) {
+                fails.emplace_back("C06.code|empty", "generator returned empty code for the flat model");
+            } else if (!runCRobustly(iface, impl, plan, rr)) {
+                if (rr.error.empty()) {
+                    c.count("infra:compiler-or-program-killed-without-diagnostics");
+                } else {
+                    fails.emplace_back("C06.code|run|" + rr.error.substr(0, 30), rr.error + "\n--- implementation ---\n" + impl.substr(0, 6000));
+                }
+            } else {
+                c.count("programs");
+                long comparisons = 0;
+                std::string v = compareRunWithTruth(truth, map, rr, kTol, &comparisons);
+                c.count("comparisons", comparisons);
+                if (!v.empty()) {
+                    fails.emplace_back("C06.value|" + firstLine(v), withFlat(rest(v)) + "\n--- implementation ---\n" + impl.substr(0, 8000));
+                } else if (!f.ref.nla.empty() && (rr.nlaCalls <= 0 || rr.nlaResidual > 1e-6)) {
+                    fails.emplace_back("C06.value|nla-residual", withFlat("the NLA objective function of the flat model does not vanish at the reference solution (calls " + std::to_string(rr.nlaCalls) + ", max |f| " + std::to_string(rr.nlaResidual) + ")"));
+                } else {
+                    c.count("values-confirmed");
                 }
             }
+            break;
         }
         if (fails.empty()) {
             someMatchPassed = true;
@@ -520,11 +691,64 @@ void run(Src &src, Case &c)
             firstFailures = fails;
         }
     }
+    tm.lap("analysis+run");
     if (!someMatchPassed) {
         for (const auto &x : firstFailures) {
             also(x.first, x.second);
         }
     }
+}
+
+// Development aid (C06_DEV_LOG=<dir>): failures are appended to <dir>/failures.log, the running tape is copied next to
+// it and the case is reported as passed, so that one run shows the whole distribution of failures without shrinking.
+void runOuter(Src &src, Case &c)
+{
+    run(src, c);
+    if (const char *only = getenv("C06_DEV_ONLY")) {
+        // development aid: keep only failures whose signature starts with the given text (to shrink towards one finding)
+        std::vector<std::pair<std::string, std::string>> keep;
+        if (!c.ok && c.sig.compare(0, strlen(only), only) == 0) {
+            keep.emplace_back(c.sig, c.msg);
+        }
+        for (const auto &x : c.alsoFailed) {
+            if (x.first.compare(0, strlen(only), only) == 0) {
+                keep.push_back(x);
+            }
+        }
+        c.ok = true;
+        c.sig.clear();
+        c.msg.clear();
+        c.alsoFailed = keep;
+        return;
+    }
+    const char *dev = getenv("C06_DEV_LOG");
+    if (dev == nullptr) {
+        return;
+    }
+    std::vector<std::pair<std::string, std::string>> all = c.alsoFailed;
+    if (!c.ok) {
+        all.emplace_back(c.sig, c.msg);
+    }
+    static long n = 0;
+    for (const auto &x : all) {
+        if (knownFindingIndex("C06", x.first) >= 0) {
+            std::ofstream k(std::string(dev) + "/known.log", std::ios::app);
+            k << x.first << "\n";
+            continue;
+        }
+        std::ofstream o(std::string(dev) + "/failures.log", std::ios::app);
+        o << "#" << getpid() << "-" << ++n << " " << x.first << " :: " << x.second.substr(0, 400) << "\n=====\n";
+        const char *cur = getenv("C06_DEV_CUR");
+        if (cur != nullptr) {
+            std::ifstream in(cur, std::ios::binary);
+            std::ofstream out(std::string(dev) + "/case-" + std::to_string(getpid()) + "-" + std::to_string(n) + ".cur", std::ios::binary);
+            out << in.rdbuf();
+        }
+    }
+    c.alsoFailed.clear();
+    c.ok = true;
+    c.sig.clear();
+    c.msg.clear();
 }
 
 } // namespace
@@ -541,7 +765,7 @@ Property property = {
     "unsplit model (encapsulation, equivalence classes, units reduced independently), be analysed with the same type and per-variable roles as the unsplit model, and its generated C code must reproduce the ground-truth values; the "
     "dumps of the main and library models must be identical before and after. Non-trivial: >= 2 import edges and at least one of {chain >= 2, diamond, duplicate import, component or units name clash, imported units used by cn only, "
     "encapsulated children}. Distinct = hash of the forest text.",
-    run,
+    runOuter,
     nullptr,
     {"the reference for the flat model is the unsplit model the forest was cut from (spec-level inlining by construction); its truth comes from the C03 ground-truth generator (margin 2e-3, tolerance 1e-7, NLA systems checked at the constructed solution)",
      "flat components are related to reference components by encapsulation position, expected name modulo a _<n> suffix and variable names; where that is ambiguous every candidate correspondence is tried and one must pass",
